@@ -61,6 +61,7 @@ class FakeFSM:
         self.crew_wait = False
         self.archive_calls = 0
         self.state = 'running'
+        self.archive_deactivates = False  # C11: the pipeline stays in archiving until the harness flips it back
 
     def is_pipeline_active(self):
         return self.active
@@ -70,6 +71,8 @@ class FakeFSM:
 
     def archiving_trigger(self):
         self.archive_calls += 1
+        if self.archive_deactivates:
+            self.active = False
 
 
 def _graph(dot, roots, name):
@@ -162,6 +165,7 @@ class World:
         self.fsm.active = True
         self.fsm.crew_wait = False
         self.fsm.archive_calls = 0
+        self.fsm.archive_deactivates = False
         del self.chron[:]
         self.next_calls = 0
         self.runid_seq = 100
